@@ -27,17 +27,28 @@ func init() {
 			ex.bigStore(st, args[0], ex.bigConst(v))
 			return []Value{args[0], True()}
 		}
-		if base != 10 {
+		if base != 10 && base != 2 && base != 8 && base != 16 {
 			unsupported("big.SetString of a symbolic string in base %d", base)
 		}
 		bs := ex.strBytes(sv)
 		k8 := IntKind{8, false}
 		isCh := func(b *Term, c byte) *Term { return Eq(b, ex.intConst(big.NewInt(int64(c)), k8)) }
-		isDigit := func(b *Term) *Term {
+		inRange := func(b *Term, lo, hi byte) *Term {
 			if ex.IntMode {
-				return And(ICmp(">=", b, IntC64('0')), ICmp("<=", b, IntC64('9')))
+				return And(ICmp(">=", b, IntC64(int64(lo))), ICmp("<=", b, IntC64(int64(hi))))
 			}
-			return And(BVCmp("bvuge", b, BVC64('0', 8)), BVCmp("bvule", b, BVC64('9', 8)))
+			return And(BVCmp("bvuge", b, BVC64(uint64(lo), 8)), BVCmp("bvule", b, BVC64(uint64(hi), 8)))
+		}
+		topDigit := byte('9')
+		if base < 10 {
+			topDigit = byte('0' + base - 1)
+		}
+		isDigit := func(b *Term) *Term {
+			d := inRange(b, '0', topDigit)
+			if base == 16 {
+				d = Or(d, Or(inRange(b, 'a', 'f'), inRange(b, 'A', 'F')))
+			}
+			return d
 		}
 		n := len(bs)
 		if n == 0 {
@@ -66,15 +77,23 @@ func init() {
 		if ex.IntMode {
 			val = IntC64(0)
 			for i := start; i < n; i++ {
-				val = IAdd(IMul(val, IntC64(10)), ISub(bs[i], IntC64('0')))
+				d := ISub(bs[i], IntC64('0'))
+				if base == 16 {
+					d = Ite(ICmp("<=", bs[i], IntC64('9')), d, Ite(ICmp(">=", bs[i], IntC64('a')), ISub(bs[i], IntC64('a'-10)), ISub(bs[i], IntC64('A'-10))))
+				}
+				val = IAdd(IMul(val, IntC64(int64(base))), d)
 			}
 			val = Ite(neg, INeg(val), val)
 		} else {
 			W := ex.BigW
 			val = BVC(bigZero, W)
 			for i := start; i < n; i++ {
-				d := BV2("bvsub", ZExt(bs[i], W), BVC64('0', W))
-				val = BV2("bvadd", BV2("bvmul", val, BVC64(10, W)), d)
+				c := ZExt(bs[i], W)
+				d := BV2("bvsub", c, BVC64('0', W))
+				if base == 16 {
+					d = Ite(BVCmp("bvule", bs[i], BVC64('9', 8)), d, Ite(BVCmp("bvuge", bs[i], BVC64('a', 8)), BV2("bvsub", c, BVC64('a'-10, W)), BV2("bvsub", c, BVC64('A'-10, W))))
+				}
+				val = BV2("bvadd", BV2("bvmul", val, BVC64(uint64(base), W)), d)
 			}
 			val = Ite(neg, BVNeg(val), val)
 		}
